@@ -26,9 +26,12 @@ Step ==
          acts == creates \/ (al0 /\ ~decoder)
          x == Sem(e, t0)
          panicked == e.res = "panic"
-         okPath == e.pp = 0
+         \* growth refused by the arena (driver op ArenaNoGrow): an out-of-memory panic is legitimate there
+         refused == e.nogrow = 1 /\ panicked
+         okPath == e.pp = 0 /\ ~refused
      IN
      /\ Chk("C14", "AlwaysValidUtf8", (e.alive = 1 /\ e.pp = 0) => e.utf8 = 1, e.bytes)
+     /\ Chk("C14", "ValidUtf8AfterRefusedGrowth", (e.alive = 1 /\ refused) => e.utf8 = 1, e.bytes)
      /\ Chk("C16", "StringStillValidUtf8AfterPanic", (e.alive = 1 /\ e.pp = 1) => e.utf8 = 1, e.bytes)
      /\ Chk("C14", "BytesEncodeTheText", (e.alive = 1 /\ e.utf8 = 1) => e.bytes = EncAll(e.text), <<e.bytes, e.text>>)
      /\ Chk("C14", "PanicsExactlyWhenStdDoes", (acts /\ okPath) => (panicked = x.panics), <<e.res, x.panics, e.a, e.rg, t0>>)
@@ -43,6 +46,9 @@ Step ==
      /\ Chk("C14", "ReservedCapacityAvailable",
             (e.op \in {"reserve", "reserve_exact"} /\ e.res = "ok" /\ e.len >= 0 /\ e.a >= 0) => e.cap >= e.len + e.a,
             <<e.len, e.a, e.cap>>)
+     /\ Chk("C18", "AmortisedGrowthAtLeastDoubles",
+            (e.moved = 1 /\ e.cap0 > 0 /\ ~panicked /\ e.op \in {"push", "push_str", "insert", "insert_str", "extend", "write_fmt", "reserve"})
+               => e.cap >= 2 * e.cap0, <<e.op, e.cap0, e.cap>>)
      /\ Chk("C18", "NoMoveWithinReservedCapacity",
             (e.moved = 1 /\ e.op \in {"push", "push_str", "insert", "insert_str", "extend", "write_fmt"} /\ ~panicked /\ e.cap0 >= 0)
                => e.len > e.cap0, <<e.len, e.cap0>>)
